@@ -427,7 +427,11 @@ fn filter_search(cfg: &FCfg, depth: usize, problems: &mut Vec<Violation>) -> (u6
                 if failed {
                     continue;
                 }
-                let fp = mc::fp_of(&(w.refm.ip.normalized(w.half), w.refm.node.normalized(w.half), w.refm.total.normalized(w.half), &w.refm.banned_ips, &w.refm.banned_nodes));
+                // the limiter inside the filter is not observable: pruning is the one event without an effect
+                // on the reference, so "pruned since the last other event" is part of the state (without
+                // it the state after a prune is merged with the one before and never expanded)
+                let just_pruned = matches!(hist.last(), Some(FEv::Prune));
+                let fp = mc::fp_of(&(w.refm.ip.normalized(w.half), w.refm.node.normalized(w.half), w.refm.total.normalized(w.half), &w.refm.banned_ips, &w.refm.banned_nodes, just_pruned));
                 if seen.insert(fp) {
                     states += 1;
                     next.push(hist);
